@@ -220,6 +220,22 @@ def main(argv=None):
     findings = load_findings()
     open_f = [f for f in findings.get("open", []) if f["property"] == prop]
 
+    # effect obligations decided on the AST / call graph (cfg back end)
+    if hasattr(mod, "EXTRA"):
+        t0 = time.time()
+        try:
+            extra = mod.EXTRA()
+        except Exception:
+            extra = []
+            results.append({"qual": "effects", "vcs": [], "error": "checker crash: " + traceback.format_exc()[-1200:], "crash": True, "covers": [],
+                            "vacuous": [], "trusted": [], "src": None, "seconds": 0})
+        evs = []
+        for e in extra:
+            evs.append({"name": e["name"] if e["name"].startswith(prop) else f"{prop}/{e['name']}", "status": e["status"], "backend": "cfg",
+                        "seconds": 0.0, "model": {"site": e.get("reason")} if e.get("reason") else None, "reason": e.get("reason"), "kind": "effect",
+                        "line": None, "fn": "effects", "note": e.get("reason") or "", "size": 0})
+        results.append({"qual": "effects (AST / call graph)", "vcs": evs, "error": None, "covers": [], "vacuous": [], "trusted": [], "src": None,
+                        "seconds": round(time.time() - t0, 3)})
     vcs = [dict(v, qual=r["qual"]) for r in results for v in r["vcs"]]
     errors = [r["error"] for r in results if r["error"]]
     crashed = any(r.get("crash") for r in results)
